@@ -5,7 +5,7 @@ the checks are pointed at the worktree through PYTHONPATH.  Writes /verif/seeded
 import json, os, re, subprocess, sys, time
 
 SEEDED = "/verif/seeded"
-WT = "/tmp/verif-mutant-wt"
+WT = f"/tmp/verif-mutant-wt-{os.getpid()}"
 
 
 def sh(cmd, **kw):
@@ -20,8 +20,13 @@ def main():
         if not os.path.isdir(d) or (only and not any(name.startswith(o) for o in only)):
             continue
         meta = json.load(open(os.path.join(d, "meta.json")))
+        if meta.get("obsolete_after"):
+            rows.append((name, "-", f"superseded by fix {meta['obsolete_after']} (the edit no longer changes behaviour)", "", "", ""))
+            continue
         caught = meta["detection"].split("MISSED")[-1]
         checks = sorted(set(re.findall(r"C\d\d", caught.split("not by")[0])) | {meta["property"]})
+        if meta.get("round") == 5 and os.environ.get("ROUND5_ONLY_CATCHERS"):
+            checks = sorted(set(re.findall(r"C\d\d", caught.split("not by")[0]))) or [meta["property"]]
         sh(f"git -C /repo worktree remove --force {WT}; rm -rf {WT}; git -C /repo worktree prune")
         r = sh(f"git -C /repo worktree add --detach {WT} HEAD && git -C {WT} apply {d}/patch.diff")
         if r.returncode:
@@ -37,7 +42,7 @@ def main():
             rows.append((name, c, verdict, ", ".join(clauses)[:300], f"demo exit {demo.returncode}", f"{time.time() - t0:.0f}s"))
             print(rows[-1], flush=True)
         sh(f"git -C /repo worktree remove --force {WT}; git -C /repo worktree prune")
-    with open(os.path.join(SEEDED, "RESULTS.md") if not only else "/tmp/RESULTS.partial.md", "w") as f:
+    with open(os.path.join(SEEDED, "RESULTS.md") if not only else f"/tmp/RESULTS.partial.{os.getpid()}.md", "w") as f:
         f.write("# Seeded changes x checks (quick tier, seed 0)\n\nProduced by tools/all_mutants.py; every change is applied in a scratch "
                 "worktree and the checks are pointed at it through PYTHONPATH.\n\n| seeded change | check | result | failing clauses | demo | time |\n|---|---|---|---|---|---|\n")
         for r in rows:
